@@ -4,7 +4,8 @@ import Mathlib.Tactic.SplitIfs
 
 /-! # Tie, part 1: the helpers of `UnitCalculator.convert_expression_recursively` (generated from units.py) -
     `maybe_convert_expr` = `Convert.maybeConv`, `maybe_convert_child` - and one lemma per constructor of `E` for every
-    branch except Piecewise: generated code (recursive calls played by the model) = `Convert.convert`.
+    branch except Piecewise (`ConvertPw.lean`) and the n-ary classes Add / Mul / And / Or / fnN (`ConvertN.lean`):
+    generated code (recursive calls played by the model) = `Convert.convert`.
     Main theorems: `Cellml/Tie/Convert.lean`. -/
 
 namespace Cellml.Tie.PConvert
@@ -109,23 +110,6 @@ theorem tie_deriv (v t : Nat) (tgt : PyUnit) : GEN (.deriv v t) tgt = MODEL (.de
       rw [maybeConvertExpr_tie reg Γ _ _ _ _ true]
       cases maybeConv reg (.deriv v t) false (divC vv.unit vt.unit) tgt true <;> simp [encConv, errClass, Except.map]
 
-theorem tie_mul (a b : E) (tgt : PyUnit) : GEN (.mul a b) tgt = MODEL (.mul a b) tgt := by
-  branch
-  cases ha : Convert.convert reg Γ a none with
-  | error err => simp [modelRec_error ha]; mon
-  | ok ra =>
-    cases hb : Convert.convert reg Γ b none with
-    | error err => simp [modelRec_ok ha, modelRec_error hb]; mon
-    | ok rb =>
-      simp [modelRec_ok ha, modelRec_ok hb]
-      mon
-      simp only [reduceMul, List.foldlM, unitMul, bind, Except.bind, pure, Except.pure]
-      cases tgt with
-      | none => cases ra.wc <;> cases rb.wc <;> simp [maybeConv, encConv_ok]
-      | some t =>
-        simp only [Option.isSome_some, if_true]
-        cases hw1 : ra.wc <;> cases hw2 : rb.wc <;> simp <;> exact maybeConvertExpr_tie reg Γ _ _ _ _ _
-
 theorem tie_pow (b x : E) (tgt : PyUnit) : GEN (.pow b x) tgt = MODEL (.pow b x) tgt := by
   branch
   cases hx : Convert.convert reg Γ x (some []) with
@@ -152,22 +136,6 @@ theorem tie_pow (b x : E) (tgt : PyUnit) : GEN (.pow b x) tgt = MODEL (.pow b x)
           mon
           simp only [unitPow]
           cases hw1 : rx.wc <;> cases hw2 : rb.wc <;> simp <;> exact maybeConvertExpr_tie reg Γ _ _ _ _ _
-
-theorem tie_add (a b : E) (tgt : PyUnit) : GEN (.add a b) tgt = MODEL (.add a b) tgt := by
-  branch
-  cases ha : Convert.convert reg Γ a tgt with
-  | error err => have := modelRec_error ha; mon
-  | ok ra =>
-    have := modelRec_ok ha
-    cases tgt with
-    | none =>
-      cases hb : Convert.convert reg Γ b (some ra.u) with
-      | error err => have := modelRec_error hb; mon
-      | ok rb => have := modelRec_ok hb; mon; cases ra.wc <;> cases rb.wc <;> simp
-    | some t =>
-      cases hb : Convert.convert reg Γ b (some t) with
-      | error err => have := modelRec_error hb; mon
-      | ok rb => have := modelRec_ok hb; mon; cases ra.wc <;> cases rb.wc <;> simp
 
 theorem dimless_eq (tgt : PyUnit) : (tgt.isSome && (tgt != some ([] : Container))) = !dimlessTarget tgt := by
   cases tgt with
@@ -227,52 +195,6 @@ theorem tie_not (a : E) (tgt : PyUnit) : GEN (.not a) tgt = MODEL (.not a) tgt :
     cases ha : Convert.convert reg Γ a (some []) with
     | error err => have := modelRec_error ha; simp [Py.isIn]; mon
     | ok ra => have := modelRec_ok ha; simp [Py.isIn]; mon; cases ra.wc <;> simp
-
-theorem tie_fnN (f : String) (a b : E) (tgt : PyUnit) (hf : Py.isIn f ["floor", "ceiling", "Abs"] = false) :
-    GEN (.fnN f a b) tgt = MODEL (.fnN f a b) tgt := by
-  branch
-  simp only [funcName, hf, dimless_eq]
-  cases hd : dimlessTarget tgt with
-  | false => mon; simp [convCls, UnitErr.name]
-  | true =>
-    cases ha : Convert.convert reg Γ a (some []) with
-    | error err => have := modelRec_error ha; mon
-    | ok ra =>
-      have := modelRec_ok ha
-      have hu : ra.u = [] := Convert.convert_target a [] ra ha
-      cases hb : Convert.convert reg Γ b (some []) with
-      | error err => have := modelRec_error hb; mon
-      | ok rb => have := modelRec_ok hb; mon; cases ra.wc <;> cases rb.wc <;> simp
-
-theorem tie_and (a b : E) (tgt : PyUnit) : GEN (.and a b) tgt = MODEL (.and a b) tgt := by
-  branch
-  simp only [funcName, dimless_eq]
-  cases hd : dimlessTarget tgt with
-  | false => simp [Py.isIn]; mon; simp [convCls, UnitErr.name]
-  | true =>
-    cases ha : Convert.convert reg Γ a (some []) with
-    | error err => have := modelRec_error ha; simp [Py.isIn]; mon
-    | ok ra =>
-      have := modelRec_ok ha
-      have hu : ra.u = [] := Convert.convert_target a [] ra ha
-      cases hb : Convert.convert reg Γ b (some []) with
-      | error err => have := modelRec_error hb; simp [Py.isIn]; mon
-      | ok rb => have := modelRec_ok hb; simp [Py.isIn]; mon; cases ra.wc <;> cases rb.wc <;> simp
-
-theorem tie_or (a b : E) (tgt : PyUnit) : GEN (.or a b) tgt = MODEL (.or a b) tgt := by
-  branch
-  simp only [funcName, dimless_eq]
-  cases hd : dimlessTarget tgt with
-  | false => simp [Py.isIn]; mon; simp [convCls, UnitErr.name]
-  | true =>
-    cases ha : Convert.convert reg Γ a (some []) with
-    | error err => have := modelRec_error ha; simp [Py.isIn]; mon
-    | ok ra =>
-      have := modelRec_ok ha
-      have hu : ra.u = [] := Convert.convert_target a [] ra ha
-      cases hb : Convert.convert reg Γ b (some []) with
-      | error err => have := modelRec_error hb; simp [Py.isIn]; mon
-      | ok rb => have := modelRec_ok hb; simp [Py.isIn]; mon; cases ra.wc <;> cases rb.wc <;> simp
 
 theorem tie_numLeaf (ex : E) (tgt : PyUnit) (hl : isNumLeaf ex = true) : GEN ex tgt = MODEL ex tgt := by
   cases ex <;> simp [isNumLeaf] at hl <;>
